@@ -40,8 +40,16 @@ CHECKS = {
          "Commit/rollback histories under every retention setting with systematic single-file fault injection on the change directory: truncation of the newest record at every byte offset, every count field set to 2^32 / 2^63 / u64::MAX, deletion; older records deleted / halved / malformed before rollback_before. The directory listing is compared with a model after every commit.",
          "Faults are single-file and confined to the change directory; in-range (plausible) corruptions of a length field cannot be detected without checksums and are not demanded.",
          "property-based fault injection (enumerated truncation offsets and field values) with model oracle", "DESIGN.md §4 C16"),
+ "C08": ("E3-vecmodel", "exploration",
+         "Model-based property test of the whole read-path matrix: C03-style histories with generated read requests (empty, reversed, beyond-len, page-straddling, stored/pushed-straddling ranges; index lists; mmap/file-IO crossover forced to default / 0 / 64 bytes); every read API of the read-write vector, read-only clones, boxed clones, cached wrappers, cursors, point readers and stored-only scans is compared with the reference model restricted to the range; any panic is a violation.",
+         "Stored-only views are compared only in states whose stored prefix equals the logical contents (they are documented to ignore pending updates / deleted slots). Known finding KF-C08-1 (Cursor / read_sorted_* on a raw vector with deleted slots) is excluded by construction and counted.",
+         "differential + model-based property testing over generated histories and read requests (proptest)", "DESIGN.md §4 C08"),
+ "C20": ("E3-vecmodel", "exploration",
+         "Runtime monitor over generated histories: C03 and C04 histories (so that the logical stored length can exceed what is on disk) with the C08 read matrix interleaved; the access tap (hook H8) reports every byte range dereferenced through the memory map or read from the data file and each must lie inside one of the vector's own regions and below that region's current length.",
+         "Only call sites instrumented by hook H8 are observed. Known finding KF-C20-1 (stored-only views of a raw vector between the rollback of a truncating commit and the next write) is excluded by construction and counted.",
+         "property-based testing with an instrumented access monitor as oracle (proptest)", "DESIGN.md §4 C20"),
 }
-WIP = "check not built yet in this session (work in progress, see DESIGN.md §4 for the planned generated-input check)"
+WIP = "not claimed: the generated-input check designed in DESIGN.md §4 was not built within the time available (the technique applies; nothing is asserted about this property)"
 
 props = [json.loads(l) for l in open(os.path.join(ROOT, "properties.jsonl"))]
 checks, na = [], []
